@@ -164,7 +164,7 @@ PROPERTIES = {
         ],
     },
     "C19": {
-        "modules": ["contracts.core_models", "contracts.c09_arith", "contracts.c19_proofs"],
+        "modules": ["contracts.core_models", "contracts.c09_arith", "contracts.c13_types", "contracts.c13_views", "contracts.c19_proofs"],
         "level": "other",
         "explanation": "two layers. PROVED from the real source for SYMBOLIC formats [left:right] and raw values: SFixed/UFixed.__add__/__sub__/__mul__ return a value of some format whose represented number is exactly a (op) b (UFixed a-b wraps modulo the result range), including that the raw vector handed to the result constructor has the width of the result format (the real __init__ raw branch and std.Value are interpreted); __eq__ requires equal formats and then compares represented numbers. The raw-vector arithmetic used is the proved C09 contract of Signed/Unsigned (resize, +, -, *); nonlinear steps are instances of lemma schemas proved by the solver on every run (pyvc/lemmas.py). BOUNDED (labelled, never counted as proved): resize_fn (every source format x target format x round style x overflow style x raw value within the bound, against exact rational arithmetic: floor / ties-to-even, then wrap / clamp), the constructors from int, float, Signed, Unsigned and other formats (value preserved; accepted where the constructor's own preconditions hold), equality with numbers, and + - * again end to end.",
         "assumptions": COMMON_ASSUME + [
